@@ -78,7 +78,7 @@ SPECS['C18'] = dict(
                  'dt_strf_ical has no millisecond field: an ms instant printed that way is expected back at second resolution',
                  'timed spellings always carry seconds'],
     quick=dict(workers=16, cases=8000, size=100, timeout=900),
-    thorough=dict(workers=16, cases=500000, size=100, timeout=3600),
+    thorough=dict(workers=16, cases=200000, size=100, timeout=3600),
 )
 
 SPECS['C15'] = dict(
